@@ -877,7 +877,7 @@ func randDocRes(rng *rand.Rand, typ, id string) dRes {
 			r.Vals["n"] = jVal{R: rng.Intn(4), IDs: []string{}}
 		}
 		r.Vals["o"] = jVal{IDs: pick([][]string{{}, {"u"}, {"v"}})}
-		r.Vals["m"] = jVal{IDs: pick([][]string{{}, {"u"}, {"v", "u"}, {"w", "u", "v"}, {"u", "u"}})}
+		r.Vals["m"] = jVal{IDs: pick([][]string{{}, {"u"}, {"v", "u"}, {"w", "u", "v"}, {"u", "u"}, {"u", "w", "u"}, {"v", "v", "u", "v"}})}
 		r.Vals["o2"] = jVal{IDs: pick([][]string{{}, {"w"}, {"u"}})}
 		r.Vals["m2"] = jVal{IDs: pick([][]string{{}, {"w"}, {"u", "w"}})}
 	} else {
